@@ -47,7 +47,7 @@ func registerC20() {
 		Level: "exploration",
 		Rule: "the constant table is generated at check time from the types.go of the tree under test (go/parser; constants of the generated types declared in other files of the package are included) and compiled into the checker; a case is one (type, value): " +
 			"every constant of every generated type, every remaining value of 8- and 16-bit types, and for 32-bit types all neighbours of constants, every single-bit and two-bit value, every OR / sum / difference of two named values, plus 200000 PRNG values; " +
-			"before any sequential use in the worker process, 8 goroutines make the process's first String() calls of each type at the same moment; non-trivial: String() was called and compared (named value: one of the names without the type prefix; other value: Type(n)); the value checks are repeated in a binary built with GOARCH=386 (32-bit int) when the host can run it; plus regeneration of types_string.go with the repository's own stringer (verif-tagged fitgen; six runs with GOMAXPROCS default, 1, 3, 6, 7, 12) compared byte for byte",
+			"before any sequential use in the worker process, 8 goroutines make the process's first String() calls of each type at the same moment; non-trivial: String() was called and compared (named value: one of the names without the type prefix; other value: Type(n)); the value checks are repeated in a binary built with GOARCH=386 (32-bit int) when the host can run it; plus regeneration of types_string.go with the repository's own stringer (verif-tagged fitgen; six runs with GOMAXPROCS default, 1, 3, 6, 7, 12, and one with a fitgen built for GOARCH=386) compared byte for byte",
 		Assume:        []string{"Bool (hand-written in types_man.go, prints prefixed names by design) is reported separately and not judged by the generated-type rule"},
 		MinNontrivial: 100000,
 		WorkerProcs:   4,
@@ -245,7 +245,28 @@ func c20Tables(c *lib.Ctx) {
 	}
 	// The regeneration is repeated under several GOMAXPROCS values (default, 1, 3, 6, 7, 12): what
 	// the stringer writes must not depend on how many Ps it finds.
-	procs := []string{"", "1", "3", "6", "7", "12"}
+	procs := []string{"", "1", "3", "6", "7", "12", "386"}
+	// ... and once with a fitgen built for a 32-bit platform (GOARCH=386): what the generator
+	// writes must not depend on the word size of the machine that runs it
+	bin386 := filepath.Join(wd, "fitgen386")
+	b386 := exec.Command("go", "build", "-tags", "verif", "-o", bin386, "./cmd/fitgen")
+	b386.Dir = repo
+	b386.Env = append(os.Environ(), "GOARCH=386")
+	have386 := false
+	if _, err := b386.CombinedOutput(); err == nil {
+		have386 = true
+		if e := exec.Command(bin386, "-h").Run(); e != nil {
+			if _, isExit := e.(*exec.ExitError); !isExit {
+				have386 = false // the host cannot execute the binary
+			}
+		}
+	} else {
+		c.Count("fitgen_386_build_failed", 1)
+	}
+	if !have386 {
+		procs = procs[:len(procs)-1]
+		c.Count("fitgen_386_regeneration_not_possible_on_this_host", 1)
+	}
 	type regen struct {
 		gen []byte
 		msg string
@@ -258,9 +279,12 @@ func c20Tables(c *lib.Ctx) {
 			defer wg.Done()
 			outFile := filepath.Join(wd, fmt.Sprintf("types_string_%d.go", k))
 			run := exec.Command(bin)
+			if p == "386" {
+				run = exec.Command(bin386)
+			}
 			run.Dir = repo
 			run.Env = append(os.Environ(), "FITGEN_VERIF_STRINGER="+filepath.Join(repo, "types.go")+"|"+outFile+"|"+strings.Join(ours, ","))
-			if p != "" {
+			if p != "" && p != "386" {
 				run.Env = append(run.Env, "GOMAXPROCS="+p)
 			}
 			if out, err := run.CombinedOutput(); err != nil {
@@ -294,7 +318,7 @@ func c20Tables(c *lib.Ctx) {
 					line++
 				}
 			}
-			c.Violation(nil, "types_string.go is not what the repository's stringer generates from types.go with GOMAXPROCS=%q (first difference at line %d; generated %d bytes, checked in %d bytes)", procs[k], line, len(gen), len(checked))
+			c.Violation(nil, "types_string.go is not what the repository's stringer generates from types.go with GOMAXPROCS=%q (386 stands for a fitgen built with GOARCH=386) (first difference at line %d; generated %d bytes, checked in %d bytes)", procs[k], line, len(gen), len(checked))
 			return
 		}
 		c.Count("string_table_regenerations_identical", 1)
